@@ -480,6 +480,37 @@ def _search_skipped(cfg, path, sn) -> bool:
     return False
 
 
+def _r30_regex_split(ctx: Ctx, fi: FuncInfo, loop, parts):
+    """role split with a regular expression: m = RX.match(role); out = canonicalize_role(m.group(A)) + m.group(B) [or ''].
+    Decided with E5: every text the parser can put into a role slot (ROLE token + optional ALIGNMENT token) must be matched completely by RX,
+    otherwise the tail that is not matched is dropped from the output role."""
+    from ..rx import Lang
+    from .small import _regex_of
+    m_assign = None
+    for n in ast.walk(loop):
+        if isinstance(n, ast.Assign) and isinstance(n.targets[0], ast.Name) and isinstance(n.value, ast.Call) and isinstance(n.value.func, ast.Attribute) \
+                and n.value.func.attr in ('match', 'fullmatch') and len(n.value.args) == 1:
+            m_assign = n
+    if m_assign is None:
+        return None
+    pat, flags = _regex_of(ctx, fi, m_assign.value.func.value)
+    if not isinstance(pat, str):
+        return None
+    try:
+        got = Lang.from_pattern(pat, int(flags or 0), 'role split')
+        alts = {n: l for n, l, _ in ctx.lex.compiled['PENMAN_RE'].alts if n}
+        role_l, aln_l = alts['ROLE'], alts['ALIGNMENT']
+        want = role_l.union(role_l.cat(aln_l))
+        w = want.witness_not_subset(got)
+    except Exception as e:       # noqa
+        return ('undecided', f'pattern {pat!r} is not modelled: {e}')
+    if w is not None:
+        return ('violation', f'the role text is split with the pattern {pat!r}, which does not match all of {w!r} (a ROLE token followed by an ALIGNMENT token, as the parser '
+                             f'stores it in the role slot): the part that is not matched is left out of the canonical role, so canonicalising changes more than the role text')
+    # the pieces that are glued together again must be all groups of the pattern, in order
+    return ('undecided', f'pattern {pat!r} matches every ROLE [ALIGNMENT] text completely, but how the groups are glued together again is not analysed')
+
+
 # ---------------------------------------------------------------------------------------------
 @rule('R30', 'tree rewriting maps branch to branch: one output branch per input branch, untouched parts passed through')
 def r30(ctx: Ctx) -> RuleReport:
@@ -656,6 +687,12 @@ def r30(ctx: Ctx) -> RuleReport:
                     c = parts[0]
                     part_ok = isinstance(c, ast.Call) and norm(c.func).endswith('.canonicalize_role') and len(c.args) == 1 \
                         and norm(c.args[0]) == unp[0] and norm(parts[1]) == unp[1] and norm(parts[2]) == unp[2]
+                rx_verdict = None
+                if not part_ok:
+                    rx_verdict = _r30_regex_split(ctx, fi, loop, parts)
+                if rx_verdict is not None:
+                    rep.add(f'{fi.fq}: output role = canonicalize_role(role without alignment) + the same alignment suffix', fi.loc(a), rx_verdict[0], rx_verdict[1])
+                    continue
                 rep.add(f'{fi.fq}: output role = canonicalize_role(role without alignment) + the same alignment suffix', fi.loc(a),
                         'ok' if part_ok else 'undecided',
                         '' if part_ok else f'role slot is {norm(r)[:80]}; expected canonicalize_role(x) + tilde + alignment with '
